@@ -328,13 +328,11 @@ Definition BigIntegerFromString (s : bytes) : res Z :=
    inputparsing.go: readers
    ------------------------------------------------------------------------------------------------ *)
 
-(* int64(f) for a float64 on amd64 (CVTTSD2SQ): truncation toward zero, 0x8000000000000000 when out
-   of range or NaN *)
-Definition int64_of_f64 (f : f64) : Z :=
+(* getIntegerFromFloat64 (after the D02a fix): the integer part, exactly; NaN and infinities refused *)
+Definition getIntegerFromFloat64 (f : f64) : res gval :=
   match f with
-  | F64 m e => let t := bf_trunc m e in
-               if (- 2 ^ 63 <=? t)%Z && (t <? 2 ^ 63)%Z then t else (- 2 ^ 63)%Z
-  | _ => (- 2 ^ 63)%Z
+  | F64 m e => Ok (GBigInt (bf_trunc m e))
+  | _ => Err EInvalidInteger
   end.
 
 (* the string behind a value of string kind (getStringIfConvertible): string and json.Number *)
@@ -344,14 +342,19 @@ Definition string_if_convertible (v : ext) : option bytes :=
 Definition wrap_err {A} (r : res A) (e : nat) : res A :=
   match r with Ok a => Ok a | Err _ => Err e | Panic => Panic end.
 
+(* From here on the text parser of pkg/ethtypes is a parameter [bifs] (external to pkg/abi): the
+   evaluator plugs in [BigIntegerFromString] above, the theorems quantify over it with explicit laws. *)
+Section WithParser.
+Variable bifs : bytes -> res Z.
+
 Definition getIntegerFromInterface (v : ext) : res gval :=
   match v with
-  | XJNum t | XStr t => do z <- wrap_err (BigIntegerFromString t) EInvalidInteger; Ok (GBigInt z)
+  | XJNum t | XStr t => do z <- wrap_err (bifs t) EInvalidInteger; Ok (GBigInt z)
   | XBigFloat (BFin m e _) => Ok (GBigInt (bf_trunc m e))
   | XBigFloat (BInf _) => Ok GBigIntNil
   | XBigInt (Some z) => Ok (GBigInt z)
   | XBigInt None => Ok GBigIntNil
-  | XF64 f | XF32 f => Ok (GBigInt (int64_of_f64 f))
+  | XF64 f | XF32 f => getIntegerFromFloat64 f
   | XInt _ z => Ok (GBigInt z)
   | _ => Err EInvalidInteger
   end.
@@ -541,3 +544,5 @@ Definition EncodeCallDataValues (selector : bytes) (params : list tcomp) (v : ex
   do cv <- walkInput (root_of params) v;
   do d <- EncodeABIData cv;
   Ok (selector ++ d).
+
+End WithParser.
